@@ -163,9 +163,9 @@ func c10Run(c *Ctx) {
 						}
 						continue
 					}
-					if a.IsRest() {
+					if a.IsRest() || a.PtrSlice {
 						// whether a list keeps what an earlier parse put there is not stated: the new tokens must be its tail
-						ws := strings.TrimPrefix(want, "[")
+						ws := strings.TrimPrefix(strings.TrimPrefix(want, "&"), "[")
 						if !(got == want || strings.HasSuffix(got, " "+ws)) {
 							c.Violate("reuse:positional:rest", "second parse %q: list positional %s of %s holds %s, expected the tokens %q at its end (it held %s before)", args2, a.DisplayName(), cm.Name, got, toks, before[a])
 							return
